@@ -15,6 +15,7 @@ NEUTRALS = [{'name': 'flip threshold comparison', 'file': 'partitura/performance
 
 # changes made by sub-agents that were given only the property text (see /verif/seeded/<id>/): each must stay reported
 SEEDED = [
+    {'name': 'seeded change C13-r6', 'seed': 'C13-r6', 'expect': '|RESTRIKE-eq|'},
     {'name': 'seeded change C14-r5b', 'seed': 'C14-r5b', 'expect': '|F10-quot|'},
     {'name': 'seeded change C14-r5a', 'seed': 'C14-r5a', 'expect': '|CLOCK-fwd|'},
     {'name': 'seeded change C14-r4b', 'seed': 'C14-r4b', 'expect': '|F10-ticks|'},
